@@ -10,18 +10,25 @@ from ..core import Verdict, close
 from ..refs import units_ref as R
 
 ID = "C18"
-RULE = ("An environment of typed nodes (floats with length / time / velocity units, int, bool, str, float matrix) and, in "
-        "half of the cases, a custom unit defined in the same text. Numerical: dimension-typed expression ASTs "
-        "(operands '<number> <unit>' or {?ref}; blank-delimited + - * /; parentheses; exp pow log10 sin cos on "
-        "dimensionless arguments, pow(length,2)) evaluated by an independent reference in base units with * / before "
-        "+ -, left to right; solve(expr, unit) must agree to 1e-9 for a requested unit of the result's dimension, "
-        "also when the same expression is a node value (dimensionless results also in %, and in a custom [dozen]); adding "
-        "different dimensions, or requesting a unit of another dimension, must raise. Logical: comparisons "
-        "of same-dimension operands (equal, equal after conversion, 1e-8 relative apart, or >= 1e-4 apart; magnitudes "
-        "from 8e-12 to 5e6; integer nodes compared with each other across units, 250 cm vs 2 m, 1 us vs 1000 ns), ~, !{?ref}, ~!{?ref}, &&, ||, "
-        "parentheses, evaluated directly. Templates: text with {{?ref}}, {{?ref}[slice]}, {{?ref}:format} and "
-        "single-brace noise, expected via Python's format(). Non-trivial: >=3 operators with mixed priorities and >=2 "
-        "different units, or a custom unit, or a negated comparison / definedness test. Distinct = distinct case JSON.")
+RULE = (
+    'An environment of typed nodes (floats with length / time / velocity units, int, bool, str, float matrix) '
+    'and, in half of the cases, a custom unit defined in the same text. Numerical: dimension-typed expression '
+    "ASTs (operands '<number> <unit>' or {?ref}; blank-delimited + - * /; parentheses; exp pow log10 sin cos on "
+    'dimensionless arguments, pow(length,2)) evaluated by an independent reference in base units with * / before '
+    "+ -, left to right; solve(expr, unit) must agree to 1e-9 for a requested unit of the result's dimension, "
+    'also when the same expression is a node value (dimensionless results also in %, and in a custom [dozen]); '
+    'adding different dimensions, or requesting a unit of another dimension, must raise. Logical: comparisons of '
+    'same-dimension operands (equal, equal after conversion, 1e-8 relative apart, or >= 1e-4 apart; magnitudes '
+    'from 8e-12 to 5e6; integer nodes compared with each other across units, 250 cm vs 2 m, 1 us vs 1000 ns), ~, '
+    '!{?ref}, ~!{?ref}, &&, ||, parentheses, evaluated directly. Templates: text with {{?ref}}, {{?ref}[slice]}, '
+    "{{?ref}:format} and single-brace noise, expected via Python's format(). Non-trivial: >=3 operators with "
+    'mixed priorities and >=2 different units, or a custom unit, or a negated comparison / definedness test. '
+    'Later rounds: frequency operands with reciprocal products and ratios (Hz * s, 1 / s against Hz; time and '
+    'frequency are never drawn as a mismatch because the units module converts them into each other by '
+    'inversion); int nodes defined by expressions; one NumericalSolver re-used after a refused expression; the '
+    'absolute tolerance is scaled with the largest intermediate of the expression (cancelling sums). Distinct = '
+    'distinct case JSON.'
+)
 ASSUMPTIONS = [
     "operators are blank-separated as the documentation requires; negative literals are written '-3'",
     "functions are the documented ones that exist in the code (exp, pow, log10, sin, cos); arguments are dimensionless",
